@@ -285,11 +285,13 @@ pub struct GenOpts {
     /// allow the overshooting Back family
     pub back: bool,
     pub min_kf: usize,
+    /// allow positions that are distinct but only an ulp (or a denormal) apart — "instant steps"
+    pub adjacent: bool,
 }
 
 impl Default for GenOpts {
     fn default() -> Self {
-        GenOpts { max_kf: 8, repeats: true, random_pos: true, rec: true, back: true, min_kf: 0 }
+        GenOpts { max_kf: 8, repeats: true, random_pos: true, rec: true, back: true, min_kf: 0, adjacent: true }
     }
 }
 
@@ -327,6 +329,16 @@ pub fn gen_positions(r: &mut Rng, n: usize, o: &GenOpts) -> Vec<f32> {
     for _ in 0..n {
         let p = if !ps.is_empty() && o.repeats && r.chance(1, 5) {
             *r.pick(&ps)
+        } else if !ps.is_empty() && o.adjacent && o.random_pos && r.chance(1, 8) {
+            // distinct from an existing position by one ulp (or a tiny value next to 0)
+            let q = *r.pick(&ps);
+            if q == 0.0 {
+                *r.pick(&[f32::from_bits(1), 1.0e-20, f32::MIN_POSITIVE])
+            } else if q >= 1.0 || r.chance(1, 2) {
+                crate::util::next_down(q)
+            } else {
+                crate::util::next_up(q)
+            }
         } else if o.random_pos && r.chance(1, 3) {
             r.unit() as f32
         } else {
